@@ -43,7 +43,7 @@ def main():
         if rc != 0:
             print('PATCH DOES NOT APPLY\n' + out)
             return 3
-        rc, out = sh('/venv/bin/python -m pytest -q -p no:cacheprovider -n 8 --color=no 2>&1 | tail -1', cwd=S)
+        rc, out = sh('T=$(mktemp -d /var/tmp/suite.XXXXXX); TMPDIR=$T /venv/bin/python -m pytest -q -p no:cacheprovider -n 8 --color=no 2>&1 | tail -1; rm -rf $T', cwd=S)
         meta['suite_with_patch'] = out.strip()
         import re
         suite_ok = not re.search(r'\b\d+ (failed|error)', out) and 'passed' in out
